@@ -117,6 +117,8 @@ def analyse(R, runner, trace, tag):
                     "table_ok": "after the proved number of fair rounds the real router's table is not the shortest-path table of the topology",
                     "quiet_not_converged": "the real routers, fetching only when a neighbour announced a change, came to rest in a state that is not the shortest-path state (a stale or wrong route lingers with nothing left to trigger its repair)",
                     "quiet_not_fixed": "the real routers announced nothing more although some router has not processed a neighbour's current advertisement (a change was not flagged)",
+                    "not_fixed_after_bound": "after 2*16+maxdist+1 fair rounds the real routers' stored costs are still not a fixed point (the proved bound for the whole state is exceeded)",
+                    "fixed_not_converged": "the real routers' state is a fixed point but not the shortest-path state",
                     "no_quiescence": "the notification-driven schedule of the real routers did not come to rest",
                     "harness": "the harness saw an ill-formed table/advertisement"}.get(which, which)
             rep = dict(case=p[2], detail=detail[:3000], ops=ops[-6000:], trace_line=ln)
